@@ -26,7 +26,6 @@ func (a *Actor) AtTrimEdge(u UTXORec) bool {
 		h+types.TrimDepths[u.Entry.Denomination] == a.ZoneNumber()+1
 }
 
-
 // Actor drives one Net along a branch: it owns the heads it mines on, remembers nonces per
 // branch and draws traffic and mining choices from rapid.
 type Actor struct {
@@ -499,10 +498,16 @@ func (a *Actor) MineRandom(t *rapid.T) (*Block, error) {
 
 // MineRandomOrder is MineRandom with the block order fixed when order >= 0.
 func (a *Actor) MineRandomOrder(t *rapid.T, order int) (*Block, error) {
+	return a.MineOne(a.DrawMineOpts(t, order))
+}
+
+// DrawMineOpts draws mining options (order unless fixed, coinbase ledger and layout, lock byte,
+// time delta).
+func (a *Actor) DrawMineOpts(t *rapid.T, order int) MineOpts {
 	if order < 0 {
 		order = rapid.SampledFrom([]int{Zone, Zone, Zone, Zone, Region, Prime, Prime}).Draw(t, "order")
 	}
-	o := MineOpts{Order: order}
+	o := MineOpts{Order: order, Salt: a.Salt}
 	o.TimeDelta = uint64(rapid.SampledFrom([]int{1, 1, 4, 5, 6, 30}).Draw(t, "dt"))
 	qiAllowed := a.PrimeNumber() >= params.ControllerKickInBlock+1
 	if qiAllowed && rapid.IntRange(0, 3).Draw(t, "qicb") == 0 {
@@ -523,5 +528,83 @@ func (a *Actor) MineRandomOrder(t *rapid.T, order int) (*Block, error) {
 		}
 		a.label("cb_contract_layout")
 	}
-	return a.MineOne(o)
+	return o
+}
+
+// SubmitSealed submits a pending header that was built with Net.Pending on the actor's heads
+// and sealed by the caller, and advances the actor.
+func (a *Actor) SubmitSealed(ph *types.WorkObject, o MineOpts) (*Block, error) {
+	parents := a.Heads
+	b, err := a.Net.Submit(ph)
+	if err != nil {
+		return b, err
+	}
+	b.Parents = parents
+	b.After = parents.Advance(b)
+	a.Heads = b.After
+	a.Blocks = append(a.Blocks, b)
+	a.logf("mine order=%d cb=%x lock=%d datalen=%d dt=%d -> #%v txs=%d etxs=%d", b.Order, o.Coinbase.Bytes()[:3], o.Lock, len(o.Data), o.TimeDelta, b.Zone().NumberArray(), len(b.Zone().Transactions()), len(b.Zone().OutboundEtxs()))
+	a.classify(b)
+	return b, nil
+}
+
+// AdversarialTraffic feeds the pool transactions that a block must not contain or that compete
+// with each other: underpriced, nonce-gapped, two Qi spends of one output, a reverting call.
+func (a *Actor) AdversarialTraffic(t *rapid.T) {
+	if a.ZoneNumber() < params.TimeToStartTx+1 {
+		return
+	}
+	n := rapid.IntRange(0, 2).Draw(t, "nadv")
+	for i := 0; i < n; i++ {
+		kind := rapid.SampledFrom([]string{"underpriced", "noncegap", "qiconflict", "revertcall"}).Draw(t, "advkind")
+		gp := a.gasPrice()
+		switch kind {
+		case "underpriced", "noncegap", "revertcall":
+			from := a.quai[rapid.IntRange(0, FundedKeys-1).Draw(t, "from")]
+			nonce := a.Net.Nodes[Zone].Core.TxPool().Nonce(from.Internal())
+			to := a.quai[5].Addr
+			var data []byte
+			var al types.AccessList
+			gas := uint64(21000)
+			switch kind {
+			case "underpriced":
+				gp = big.NewInt(1)
+			case "noncegap":
+				nonce += 2
+			case "revertcall":
+				if len(a.Contracts) == 0 {
+					continue
+				}
+				to = a.Contracts[0]
+				data = []byte{1, 2, 3} // the lockup precompile reverts on an unknown input length
+				al = types.AccessList{{Address: to}, {Address: LockupContract()}}
+				gas = 200000
+			}
+			tx, err := QuaiTx(from, nonce, &to, big.NewInt(1), gas, gp, data, al)
+			if err != nil {
+				continue
+			}
+			errs := a.Net.SubmitTxs(tx)
+			a.logf("tx adversarial %s from=%x nonce=%d err=%v", kind, from.Addr.Bytes()[:3], nonce, errs[0])
+			a.label("adv_" + kind)
+		case "qiconflict":
+			us, owners := a.spendable()
+			if len(us) == 0 {
+				continue
+			}
+			idx := rapid.IntRange(0, len(us)-1).Draw(t, "utxo")
+			u, k := us[idx], owners[idx]
+			if u.Entry.Denomination < 4 {
+				continue
+			}
+			tx1, err1 := QiTx(k, []UTXORec{u}, []QiOut{{Denomination: u.Entry.Denomination - 1, To: a.freshQi().Addr}}, nil)
+			tx2, err2 := QiTx(k, []UTXORec{u}, []QiOut{{Denomination: u.Entry.Denomination - 2, To: a.freshQi().Addr}}, nil)
+			if err1 != nil || err2 != nil {
+				continue
+			}
+			errs := a.Net.SubmitTxs(tx1, tx2)
+			a.logf("tx adversarial qiconflict on %s errs=%v", u, errs)
+			a.label("adv_qiconflict")
+		}
+	}
 }
